@@ -24,10 +24,15 @@ def fx(v):
 def gen_spec(rng):
     spec = net.rand_feeder_spec(rng, max_lines=6, allow_mg=rng.random() < 0.4, nfeed=rng.choice([1, 1, 2]))
     spec["s_ref"] = str(rng.choice([F(1), F(1), F(10), F(1, 10), F(100)]))
+    small = rng.random() < 0.3
     for fd in spec["feeders"]:
         n = len(fd["parent"])
         fd["cost"] = [rng.choice([1, 1, 2, 3, 5, 8]) for _ in range(n)]          # ties in cost included
         fd["load"] = [str(rng.choice([F(0), F(1, 100), F(1, 50), F(1, 20), F(1, 10)])) for _ in range(n)]
+        if small:                    # small specific interruption costs (another currency / energy unit) and small load points
+            fd["cost"] = [str(rng.choice([F(1, 100), F(1, 50), F(1, 1000), F(1, 10)])) for _ in range(n)]
+            fd["costB"] = "0"
+            fd["load"] = [str(rng.choice([F(0), F(1, 500), F(1, 1000), F(1, 250), F(1, 100)])) for _ in range(n)]
         if rng.random() < 0.5:       # binding line capacities
             fd["cap"] = [None if rng.random() < 0.6 else str(rng.choice([F(1, 100), F(1, 50), F(1, 20), F(0), F(1, 10)])) for _ in range(n)]
         if rng.random() < 0.5:       # distributed production, also net exporters
